@@ -141,10 +141,23 @@ package responsemanager
 
 //@ -- C05: outcome notifications come from message notifications: completed listeners exactly when a TERMINAL status was
 //@ -- sent, after the request has been retired; a failed send closes the request with a network error
+//@ ghost nTerminateCalls int   -- TerminateRequest calls made by message-outcome subscribers
+//@ func RequestCloser.TerminateRequest
+//@   assumed
+//@   modifies nTerminateCalls
+//@   ghost nTerminateCalls := old(nTerminateCalls) + 1
 //@ func subscriber.OnNext
 //@   lenient
 //@   safety off
-//@   modifies alloc
+//@   modifies alloc, nTerminateCalls
+//@   -- C05: whichever way the message that carried this response's terminal status ended - sent, or failed on the
+//@   -- network - the response is retired (exactly one TerminateRequest); otherwise none
+//@   ensures event != nil && dyntype(event) == typetag("messagequeue.Event")
+//@           && (unbox(event, "messagequeue.Event").Name == messagequeue.Error || unbox(event, "messagequeue.Event").Name == messagequeue.Sent)
+//@           && s.request.id in unbox(event, "messagequeue.Event").Metadata.ResponseCodes
+//@           && (isSuccess(unbox(event, "messagequeue.Event").Metadata.ResponseCodes[s.request.id]) || isFailure(unbox(event, "messagequeue.Event").Metadata.ResponseCodes[s.request.id]))
+//@           ==> nTerminateCalls == old(nTerminateCalls) + 1
+//@   ensures nTerminateCalls <= old(nTerminateCalls) + 1
 //@   callsite RequestCloser.TerminateRequest: assert isSuccess(responseCode) || isFailure(responseCode)
 //@   callsite CompletedListeners.NotifyCompletedListeners: assert (isSuccess(responseCode) || isFailure(responseCode)) && $status == responseCode && $p == s.p
 //@   callsite RequestCloser.CloseWithNetworkError: assert responseEvent.Name == messagequeue.Error
